@@ -286,3 +286,26 @@ Proof.
     destruct (copy_all_users_spec _ _ _ _ B H) as (L & U & F).
     eapply copied_handles_iso; eauto.
 Qed.
+
+Lemma filter_users_by_incl h test ch : forall l r, filter_users_by h test ch l = Ok r -> incl r l.
+Proof.
+  induction l as [|uid l IH]; intros r H; simpl in H; [injection H as <-; apply incl_refl|].
+  bind_inv H u Hu. destruct (hu_perms u) as [p|]; [|discriminate]. bind_inv H m Hm. bind_inv H rest Hr. injection H as <-.
+  specialize (IH rest eq_refl). destruct (alookup (fold ch) m) as [pv|]; [destruct (test pv)|];
+    intros x Hx; [destruct Hx as [->|Hx]; [left; reflexivity|right; apply IH; exact Hx]|right; apply IH; exact Hx..].
+Qed.
+
+Theorem filtered_getters_copied_isolated w K test c h' l :
+  Isolated w K -> channel_filtered_copied_g test w c = Ok (h', l) -> Isolated (mkWorld h' (w_st w)) (l ++ K).
+Proof.
+  intros Iso H. pose proof (iso_inv _ _ Iso) as Inv. unfold channel_filtered_copied_g in H. bind_inv H l0 H0.
+  unfold channel_filtered_g in H0. bind_inv H0 hc Hc. bind_inv H0 names Hn.
+  assert (R0 : forall x, In x l0 -> In x (roots (w_st w))).
+  { intros x Hx. apply (filter_users_by_incl _ _ _ _ _ H0) in Hx.
+    destruct (in_filter_some _ _ _ Hx) as (a & _ & Ha). unfold lookup_user_h in Ha. eapply in_roots_user; eauto. }
+  assert (B : bounded (w_heap w) (creach (w_heap w) l0)).
+  { intros x Hx. apply Inv. rewrite live_objs_creach. apply in_creach in Hx. destruct Hx as (r & Hr & Hx).
+    apply in_creach. exists r. split; [apply R0; exact Hr|exact Hx]. }
+  destruct (copy_all_users_spec _ _ _ _ B H) as (L & U & F).
+  eapply copied_handles_iso; eauto.
+Qed.
